@@ -92,7 +92,7 @@ def Stack.read (n : Nat) : Stack → Base → RRes × Stack × Base
       if r.1.data.isEmpty then (⟨[], r.1.err⟩, .bufio [], r.2)
       else (⟨r.1.data.take n, none⟩, .bufio (r.1.data.drop n), r.2)
   | .sniffer buf poison, b =>
-    -- Sniffer.Read: a latched dataError is returned on EVERY call (with whatever is buffered)
+    -- Sniffer.Read: a latched dataError (a genuine stream error) is returned on every call
     if poison then (⟨buf.take n, some .err⟩, .sniffer (buf.drop n) true, b)
     else if !buf.isEmpty then (⟨buf.take n, none⟩, .sniffer (buf.drop n) false, b)
     else let r := b.read n; (r.1, .sniffer [] false, r.2)
@@ -143,6 +143,18 @@ structure Env where
   pending : Bool
 deriving Repr
 
+/-- what follows the gather write: `CopyRelayRemainder` when the source offers it, else `relayCopyLoop`. -/
+def continuation (env : Env) (fuel : Nat) (s : Stack) (b : Base) : Out :=
+  match s with
+  | .prefixed _ =>                       -- prefixedConn.CopyRelayRemainder: relayCopyDirect(dst, c.Conn)
+    copyLoop relayBuf fuel .plain b
+  | .bufio bf =>                         -- bufioConn.CopyRelayRemainder
+    if bf.isEmpty then
+      if env.tcpSrc && env.tcpDst then copyLoop spliceStep fuel .plain b
+      else copyLoop relayBuf fuel .plain b
+    else copyLoop relayBuf fuel (.bufio bf) b
+  | s => copyLoop relayBuf fuel s b      -- no continuation source: relayCopyLoop(dst, src)
+
 /-- `defaultRelayCopyEngine.Copy(dst, src)` with `src = (st, b)`. -/
 def engineCopy (env : Env) (fuel : Nat) (st : Stack) (b : Base) : Out :=
   let t := st.take
@@ -156,18 +168,7 @@ def engineCopy (env : Env) (fuel : Nat) (st : Stack) (b : Base) : Out :=
     match body.1.err with
     | some .eof => ⟨head, true⟩
     | some .err => ⟨head, false⟩
-    | none =>
-      let tail : Out :=
-        match body.2.1 with
-        | .prefixed _ =>                       -- prefixedConn.CopyRelayRemainder: relayCopyDirect(dst, c.Conn)
-          copyLoop relayBuf fuel .plain body.2.2
-        | .bufio bf =>                         -- bufioConn.CopyRelayRemainder
-          if bf.isEmpty then
-            if env.tcpSrc && env.tcpDst then copyLoop spliceStep fuel .plain body.2.2
-            else copyLoop relayBuf fuel .plain body.2.2
-          else copyLoop relayBuf fuel (.bufio bf) body.2.2
-        | s => copyLoop relayBuf fuel s body.2.2   -- no continuation source: relayCopyLoop(dst, src)
-      tail.prepend head
+    | none => (continuation env fuel body.2.1 body.2.2).prepend head
   else if env.tcpSrc && env.tcpDst then
     -- relayFastCopy: splice on the unwrapped sockets, wrappers bypassed
     copyLoop spliceStep fuel .plain b
@@ -278,12 +279,8 @@ structure Front where
   T : Nat
   /-- `lRelayConn` -/
   st : Stack
-  /-- bytes consumed from the client stream and NOT replayed -/
-  lost : Bytes
   /-- rest of the client's script -/
   rest : Script
-  /-- `lRelayConn` is a wrapper around the accepted conn -/
-  wrapped : Bool
   /-- read deadline left armed on the client socket -/
   armed : Option Nat
 deriving Repr
@@ -309,47 +306,50 @@ def Script.fuel (s : Script) : Nat := (s.evs.map fun e => e.data.length + 1).sum
 
 def be16 (b : Bytes) : Nat := b.getD 0 0 * 256 + b.getD 1 0
 
-/-- `handleTCPDnsFastPath` up to the point where it is decided whether the connection is DNS;
-`readDnsMsgFromBufio` arms `now+5s` and (since 28bf897) clears it on every exit. -/
+/-- `handleTCPDnsFastPath` up to the point where it is decided whether the connection is DNS.
+`readDnsMsgFromBufio` arms `now+5s` and clears it on every exit (28bf897); nothing is consumed
+from the `bufio.Reader` unless the frame is a well-formed *query*. -/
 def dnsDetect (cfg : Cfg) (s : Script) : Front :=
   let dl := some (cfg.start + dnsWindow)
-  let through (t : Nat) (buf lost : Bytes) (rest : Script) : Front :=
-    ⟨.relay, t, .bufio buf, lost, rest, true, none⟩
+  let through (t : Nat) (buf : Bytes) (rest : Script) : Front :=
+    ⟨.relay, t, .bufio buf, rest, none⟩
   let p1 := peekLoop dl 2 s.fuel s cfg.start []
   match p1.1 with
   | .ok =>
     let len := be16 p1.2.2.1
-    if len < dnsMinLen then through p1.2.1 p1.2.2.1 [] p1.2.2.2
+    if len < dnsMinLen then through p1.2.1 p1.2.2.1 p1.2.2.2
     else
       let p2 := peekLoop dl (2 + len) s.fuel p1.2.2.2 p1.2.1 p1.2.2.1
       match p2.1 with
       | .ok =>
         let buf := p2.2.2.1
-        if !cfg.dnsUnpackOk then through p2.2.1 buf [] p2.2.2.2
+        if !cfg.dnsUnpackOk then through p2.2.1 buf p2.2.2.2
         else if 128 ≤ buf.getD 4 0 then
-          -- QR=1: the frame has already been Discard()ed when the fast path declines
-          through p2.2.1 (buf.drop (2 + len)) (buf.take (2 + len)) p2.2.2.2
-        else if cfg.dnsCtl then ⟨.dns, p2.2.1, .bufio (buf.drop (2 + len)), [], p2.2.2.2, true, none⟩
+          -- QR=1: not a query; rejected before Discard, the bytes stay buffered
+          through p2.2.1 buf p2.2.2.2
+        else if cfg.dnsCtl then ⟨.dns, p2.2.1, .bufio (buf.drop (2 + len)), p2.2.2.2, none⟩
         else
-          -- "dns controller is not available": handled=false after consuming the query
-          through p2.2.1 (buf.drop (2 + len)) (buf.take (2 + len)) p2.2.2.2
-      | _ => through p2.2.1 p2.2.2.1 [] p2.2.2.2
-  | _ => through p1.2.1 p1.2.2.1 [] p1.2.2.2
+          -- "dns controller is not available": the query is consumed, the connection ends
+          ⟨.abort, p2.2.1, .bufio (buf.drop (2 + len)), p2.2.2.2, none⟩
+      | _ => through p2.2.1 p2.2.2.1 p2.2.2.2
+  | _ => through p1.2.1 p1.2.2.1 p1.2.2.2
 
 /-- the `SniffTcp` loop after the first read: keep reading while the sniffers say `ErrNeedMore`.
-The deadline `dl` was fixed when the sniffer was created. Returns (time, buffer, poisoned, rest). -/
+The deadline `dl` was fixed when the sniffer was created.  Only a genuine stream error is latched
+in `dataError`; the sniffer's own timeout is not.  Returns (time, buffer, poisoned, rest). -/
 def sniffLoop (needMore : List Nat) (dl : Nat) : Nat → Script → Nat → Bytes → Nat × Bytes × Bool × Script
-  | 0, s, now, buf => (now, buf, true, s)
+  | 0, s, now, buf => (now, buf, false, s)
   | fuel + 1, s, now, buf =>
     if needMore.contains buf.length then
       let r := s.readAt now (some dl) relayBuf
       match r.err with
       | .none => sniffLoop needMore dl fuel r.rest r.t (buf ++ r.data)
       | .eof =>
-        -- ReadFromOnce maps EOF to nil: same buffer, same verdict, the loop spins until the
-        -- deadline has passed, and that timeout is latched
-        (max r.t dl, buf, true, r.rest)
-      | _ => (r.t, buf, true, r.rest)     -- timeout / reset: latched in dataError
+        -- ReadFromOnce maps EOF to nil: same buffer, same verdict; the loop spins until the
+        -- deadline has passed and ends with the (unlatched) timeout
+        (max r.t dl, buf, false, r.rest)
+      | .timeout => (r.t, buf, false, r.rest)
+      | .reset => (r.t, buf, true, r.rest)
     else (now, buf, false, s)
 
 /-- `handleConn` for a sniff-eligible destination: prefetch (≤ 16 bytes, window `W`), prefix gate,
@@ -357,11 +357,11 @@ def sniffLoop (needMore : List Nat) (dl : Nat) : Nat → Script → Nat → Byte
 def sniffFront (cfg : Cfg) (s : Script) : Front :=
   let r := s.readAt cfg.start (some (cfg.start + cfg.window)) prefetchBytes
   match r.err with
-  | .reset => ⟨.abort, r.t, .plain, [], r.rest, false, none⟩
-  | .eof | .timeout => ⟨.relay, r.t, .plain, [], r.rest, false, none⟩
+  | .reset => ⟨.abort, r.t, .plain, r.rest, none⟩
+  | .eof | .timeout => ⟨.relay, r.t, .plain, r.rest, none⟩
   | .none =>
-    if r.data.isEmpty then ⟨.relay, r.t, .plain, [], r.rest, false, none⟩
-    else if !cfg.likely then ⟨.relay, r.t, .prefixed r.data, [], r.rest, true, none⟩
+    if r.data.isEmpty then ⟨.relay, r.t, .plain, r.rest, none⟩
+    else if !cfg.likely then ⟨.relay, r.t, .prefixed r.data, r.rest, none⟩
     else
       let dl := r.t + cfg.window
       -- first sniffer read goes through prefixedConn.Read: the prefix, then a blocking conn read
@@ -370,14 +370,15 @@ def sniffFront (cfg : Cfg) (s : Script) : Front :=
       match r1.err with
       | .none | .eof =>
         let l := sniffLoop cfg.needMore dl r1.rest.fuel r1.rest r1.t buf
-        ⟨.relay, l.1, .sniffer l.2.1 l.2.2.1, [], l.2.2.2, true, none⟩
-      | _ => ⟨.relay, r1.t, .sniffer buf true, [], r1.rest, true, none⟩
+        ⟨.relay, l.1, .sniffer l.2.1 l.2.2.1, l.2.2.2, none⟩
+      | .timeout => ⟨.relay, r1.t, .sniffer buf false, r1.rest, none⟩
+      | .reset => ⟨.relay, r1.t, .sniffer buf true, r1.rest, none⟩
 
 /-- `handleConn` up to `routeDial`. -/
 def front (cfg : Cfg) (s : Script) : Front :=
   if cfg.port53 then dnsDetect cfg s          -- port 53 is in tcpSniffingExcludedPorts: no sniffing
   else if cfg.sniff then sniffFront cfg s
-  else ⟨.relay, cfg.start, .plain, [], s, false, none⟩
+  else ⟨.relay, cfg.start, .plain, s, none⟩
 
 /-- bytes handed to one peer at one instant -/
 structure Deliv where
@@ -439,8 +440,8 @@ def relayPhase (cfg : Cfg) (f : Front) (up : Script) : Obs :=
     let r := resolve l2r r2l cfg.rightCW
     ⟨some f.T, f.armed.isSome, l2r.out, r.2.2, r.1, r.2.1, r.2.1⟩
   else
-    -- a wrapper around the client conn does not expose CloseWrite
-    let r := resolve r2l l2r (cfg.leftCW && !f.wrapped)
+    -- every wrapper around the client conn forwards CloseWrite to it
+    let r := resolve r2l l2r cfg.leftCW
     ⟨some f.T, f.armed.isSome, r.1, r.2.1, r2l.out, r.2.2, r.2.1⟩
 
 /-- one proxied connection from accept to return. -/
